@@ -4,6 +4,7 @@ import (
 	"encoding/json"
 	"flag"
 	"fmt"
+	"golang.org/x/tools/go/ssa"
 	"os"
 	"path/filepath"
 	"regexp"
@@ -471,10 +472,34 @@ func lemmaAnalysis(p *Program, id string) ([]*Gen, []string) {
 				}
 			}()
 			heap := g.newBaseHeap("lemma")
-			env := &Env{g: g, pkg: g.pkgOf, bind: map[string]Val{}, heap: heap, old: heap}
-			goal := env.trBool(ax.E)
+			g.assume(app(">=", heap.get("$alloc"), "0"))
+			fr := &Frame{g: g, top: false, cur: heap.child(), curReach: "true", vals: map[ssa.Value]Val{}, freeVars: map[*ssa.FreeVar]Val{}}
+			env := &Env{g: g, pkg: g.pkgOf, bind: map[string]Val{}, heap: fr.cur, old: heap, lemmaFrame: fr}
+			body := ax.E
+			// top-level universal quantifiers become fresh constants (so real functions can be inlined on them)
+			for {
+				q, ok := body.(*EQuant)
+				if !ok || !q.Forall {
+					break
+				}
+				for _, v := range q.Vars {
+					pv := env.paramVal(v, "$")
+					g.declConst(pv.S, pv.Sort)
+					g.assume(g.typeInv(pv, heap.get("$alloc")))
+					env.bind[v.Name] = pv
+				}
+				body = q.Body
+			}
+			// hypotheses first (so that calls in the conclusion are inlined under them)
+			goal := env.trBool(body)
 			pkgShort := ax.Pkg[strings.LastIndex(ax.Pkg, "/")+1:]
 			o := &Oblig{Name: pkgShort + ".lemma#" + ax.Name, Kind: "lemma", Goal: goal, Text: ax.Text, Fn: "lemma " + ax.Name, NAsserts: len(g.asserts)}
+			for _, pr := range ax.Props {
+				if strings.HasPrefix(pr, "replay=") {
+					o.ReplayTemplate = pr[7:]
+					o.ReplayPkgDir = strings.TrimPrefix(strings.TrimPrefix(ax.Pkg, modPath), "/")
+				}
+			}
 			g.Obligs = append(g.Obligs, o)
 			out = append(out, g)
 		}()
